@@ -87,6 +87,7 @@ def gen_ops(rng, n, knobs, profile="c05"):
         types += ["arr", "df", "arr"]      # weak-referenceable values matter when the caller keeps them alive
     if profile == "c07":
         types += ["part", "odpart", "odpart"]   # partitions (in memory / staged on disk) whose values share bytes with plain results
+        types += ["badpart"]                    # ... and one whose storing fails half-way (a value that cannot be encoded)
     p_over = {"c05": 0.12, "c06": 0.05, "c07": 0.45, "c19": 0.15}.get(profile, 0.1)
     ops = []
     u = 0
@@ -99,9 +100,9 @@ def gen_ops(rng, n, knobs, profile="c05"):
             cls = rng.choices(["tiny", "third", "half", "exact", "over"], [4, 3, 2, 1, 1.5])[0]
             t = types[rng.randrange(len(types))]
             n_ = sc[cls]
-            if t in ("df", "arr", "list", "dict", "none", "int", "part", "odpart"):
+            if t in ("df", "arr", "list", "dict", "none", "int", "part", "odpart", "badpart"):
                 cls = "typed"
-                if t in ("part", "odpart"):
+                if t in ("part", "odpart", "badpart"):
                     n_ = sc[rng.choice(["tiny", "third"])]
             spec = {"t": t, "n": n_, "u": u if rng.random() > 0.12 else rng.randrange(1, 4), "cls": cls}
             ko = OVERRIDE_KEYS[rng.randrange(len(OVERRIDE_KEYS))] if rng.random() < p_over else None
@@ -334,6 +335,8 @@ def run_ops(W, ops, check, emit_log, model=None, ledger=None, lru=None, faults=N
                 mem = W.memento(fn, x, val)
                 W.last_size[(fn, x)] = int(_est(val))
                 flt = (faults or {}).get(str(i))
+                if spec["t"] == "badpart":
+                    flt = None      # (this write fails by itself)
                 if flt is not None:
                     simfs.set_plan({flt["k"]: flt})
                     nfired = len(simfs.S.fired)
@@ -359,6 +362,24 @@ def run_ops(W, ops, check, emit_log, model=None, ledger=None, lru=None, faults=N
                         if viol:
                             break
                         continue
+                elif spec["t"] == "badpart" and not W.read_only:
+                    # the write fails half-way with an error of the caller's making (a value that cannot be encoded): nothing
+                    # that was stored before may be affected - the key keeps what it had
+                    try:
+                        be.memoize(ko, mem, val)
+                        raise core.HarnessError("a partition with an unencodable value was memoized")
+                    except core.HarnessError:
+                        raise
+                    except OSError:
+                        raise
+                    except Exception:  # noqa
+                        bump("unencodable_partition_writes")
+                    emit_log([i, k, "unencodable"])
+                    if ledger is not None:
+                        ledger.check(i, op, W, model, bad, bump)
+                    if viol:
+                        break
+                    continue
                 elif spec.get("alloc_fail") and spec["t"] == "df" and W.knobs.get("cache_kib") and not W.read_only:
                     # a failing allocation: the defensive copy the memory cache makes of a DataFrame raises MemoryError (only that
                     # copy: the patched method looks at its caller).  The write is un-acknowledged - the key may answer the old
@@ -639,8 +660,27 @@ def run_ops(W, ops, check, emit_log, model=None, ledger=None, lru=None, faults=N
             elif k == "call":
                 _, fn, x = op
                 W.side.take()
+                flt = (faults or {}).get(str(i))
+                nrf = 0
+                if flt is not None and flt.get("read") and simfs.S.active:
+                    # a reported I/O error while this call reads what is stored (at most one read fails)
+                    simfs.set_read_plan(p=1.0, max_faults=1, seed=i)
+                    nrf = len(simfs.S.read_fired)
                 r = W.fns[fn](x)
                 runs = len(W.side.take())
+                if flt is not None and flt.get("read") and simfs.S.active:
+                    fired_r = len(simfs.S.read_fired) - nrf
+                    simfs.set_read_plan()
+                    if fired_r:
+                        bump("calls_with_read_error")
+                        if runs == 1 and r == x:
+                            # the stored result could not be read: computed again (nothing is written through a read-only store)
+                            bump("calls_recomputed_after_read_error")
+                            obs = "recomputed"
+                            if lru is not None:
+                                lru.after(i, ["noop"], W, model, bad, bump)
+                            emit_log([i, k, obs])
+                            continue
                 if (fn, x) in model.d:
                     if runs != 0 or not values.deep_equal(r, model.d[(fn, x)]["val"]):
                         bad("call-of-memoized", op, {"i": i, "key": [fn, x], "runs": runs, "got": values.summary(r)})
